@@ -217,10 +217,18 @@ def path_forms(F, rep):
     rep.ob("PATH-FORMS", "library", lib_first, "a path naming a standard-library module resolves to FileOrLib::Lib", fn["sp"])
     # parent: if path.starts_with("/") { ctx.root } else { file.parent() }
     parent_ok = False
+    fl = Flow(fn, body)
+
+    def untrimmed(e):
+        """the expression denotes the path as written (path_ident.name), not the copy with the slashes trimmed off"""
+        e = peel_clone(e)
+        t = fl.trace(e)
+        txt = pp(t)
+        return "trim" not in txt and txt.endswith("path_ident.name")
     for i in ifs:
-        c = pp(i["c"])
-        if 'starts_with("/")' in c:
-            parent_ok = "root" in pp(i["t"]) and "parent()" in pp(i.get("e"))
+        c = peel(i["c"])
+        if c.get("k") == "MethodCall" and c["m"] == "starts_with" and peel(c["args"][0]).get("v") == "/":
+            parent_ok = untrimmed(c["recv"]) and "root" in pp(i["t"]) and "parent()" in pp(i.get("e"))
     rep.ob("PATH-FORMS", "root-vs-relative", parent_ok, "a leading `/` selects the source root, otherwise the directory of the importing file", fn["sp"])
     # join(if path == "/" {"exports.sy"} else if ends_with("/") {"{}/exports.sy"} else {"{}.sy"})
     table = []
@@ -230,6 +238,10 @@ def path_forms(F, rep):
             cur = arg
             while isinstance(cur, dict) and cur.get("k") == "If":
                 cond = pp(cur["c"])
+                cc = peel(cur["c"])
+                recv = cc.get("recv") if cc.get("k") == "MethodCall" else cc.get("l") if cc.get("k") == "Binary" else None
+                if recv is None or not untrimmed(recv):
+                    cond = "TRIMMED-OR-UNKNOWN:" + cond
                 fmts = [format_text(p, lambda d: "{}") for _, p in find_formats(cur["t"])]
                 table.append((cond, fmts[0] if fmts else "?"))
                 cur = peel(cur.get("e")) if cur.get("e") else None
